@@ -120,9 +120,9 @@ MUTATIONS += [
     dict(name="c13-dual-step-tau", file="sigpy/alg.py", props=["C13"],
          old="        backend.copyto(self.u, self.proxfc(self.sigma, self.u))",
          new="        backend.copyto(self.u, self.proxfc(self.tau, self.u))"),
-    dict(name="c13-sigma-not-rescaled", file="sigpy/alg.py", props=["C13"],
-         old='                self.sigma = self.sigma / theta',
-         new='                self.sigma = self.sigma / 1'),
+    dict(name="c13-tau-not-rescaled", file="sigpy/alg.py", props=["C13"],
+         old="                self.tau = self.tau * theta\n",
+         new="                self.tau = self.tau * 1\n"),
     dict(name="c13-fista-t", file="sigpy/alg.py", props=["C13"],
          old="                self.t = (1 + (1 + 4 * t_old**2) ** 0.5) / 2",
          new="                self.t = (1 + (1 + 2 * t_old**2) ** 0.5) / 2"),
